@@ -24,40 +24,65 @@ PROP_ID = 'C08'
 TECHNIQUE = ('runtime post-condition monitors (per-index increment identity, exact max|.|) on the array functions and '
              'on the AccSignal properties; driver-side trace relations (sign, 2^k and alpha scaling, linearity, '
              'closed forms, object-vs-array)')
-RULE = ('array cases = (record, container, dt, trap in {True,False}) calls of calc_velo_and_disp_from_accel_arr / '
-        'velocity_and_displacement_from_acceleration: record classes of DESIGN section 4 plus one-signed, constant and '
-        'linear (closed-form) records, n in [2,5000], containers float64 / float32 / int64 / int32 / int16 (no '
-        'overflow) / strided view / list / tuple / list of Python ints, dt nice / reciprocal / log-uniform in '
-        '[1e-5,10] / Python int / numpy float64; each case adds the derived records -x, 2^k x, alpha x, '
-        'alpha x+beta y. object cases = AccSignal(record, dt) followed by a random history of mutators '
-        '(reset_values, add_*, remove_*, running/rolling average, butter_pass, baseline corrections, correct_me, '
-        'clear_cache, explicit generate(trap=..)) interleaved with reads of velocity/displacement/pga/pgv/pgd in '
-        'random order. twin cases = two AccSignal objects built from the SAME float64 caller array (or from each '
-        'other\'s values, at construction or via reset_values; n >= 64, non-zero record); all five quantities of both '
-        'are read, 1-2 in-place style corrections are applied to ONE of them, then both are read again and the '
-        'untouched object\'s values are compared bit-for-bit with their earlier state. distinct = digest of (record bytes+dtype, container, dt, options/history); non-trivial = '
-        'record not identically zero.')
-ASSUMPTIONS = ['finite real 1-D record of length >= 2, dt > 0, trap a Python bool',
-               'integer records are judged when the arithmetic of the integer dtype cannot overflow on adjacent sums '
-               '(int8/int16 counts that overflow inside scipy are outside the quantifier: counted, not judged)',
-               'float16 and bool records, non-bool trap flags (numpy.bool_) are outside the quantifier (counted only)',
-               'tolerances are multiples of the machine epsilon of the coarsest floating dtype involved (a float32 '
-               'record is integrated in float32 by the library: the identity can only hold to float32 rounding)',
-               'exceptions raised by mutators themselves (e.g. in-place baseline corrections on integer values) '
-               'belong to other properties: counted, not judged; reads after them are still judged',
-               'oracle vf/oracles/integrate.py (increment formulas, closed forms) is correct']
+RULE = ('array cases = (record, container, dt, trap in {True,False}, call style) calls of '
+        'calc_velo_and_disp_from_accel_arr / velocity_and_displacement_from_acceleration. Records: classes of DESIGN '
+        'section 4 plus one-signed, constant, linear (closed forms), extreme at the first / last sample, plateau at '
+        'the start / end, sign change before the last sample, large offset under a small signal, peak anywhere in '
+        '1e-12..1e12; n in [2,5000] incl. 2^k-1, 2^k, 2^k+1 and a few records of 65537..100000 samples per run. '
+        'Containers: float64, float32, int64, int32, int16, int8, uint8, uint16 with ordinary magnitudes and '
+        '"narrow-full" records (int8/uint8/int16/uint16/int32/int64 using 95% of the dtype\'s range, some containing '
+        'iinfo.min / iinfo.max, so that neighbour sums, integer dt * sample and abs() leave the dtype), '
+        'x[::2]-type and negative-stride views, read-only arrays, lists / tuples of floats, of Python ints, mixed '
+        'int+float lists. dt: nice / reciprocal / log-uniform in [1e-5,10] and [1e-9,1e3] / Python int / '
+        'numpy.float64 / numpy.float32 / numpy.int64 / 0-d array. Call styles: trap by keyword, positionally, all '
+        'arguments by keyword, default omitted. The SAME record object goes to every call of a case (both trap '
+        'values, calc_peak) and is compared bit-for-bit with its entry snapshot after each call; each case adds the '
+        'derived records -x, 2^k x, alpha x, y, alpha x+beta y of the same shape and finally re-checks the FIRST '
+        'results it still holds. object cases = AccSignal(record, dt) (all containers above) followed by a random '
+        'history of mutators (same / shorter / longer reset_values, add_*, remove_*, running/rolling average, '
+        'butter_pass, baseline corrections with and without timezone, correct_me, clear_cache, explicit '
+        'generate(trap) by keyword / positionally / default) interleaved with reads of velocity / displacement / '
+        'pga / pgv / pgd in random order with repeats and with "feed" steps that pass the arrays handed out by the '
+        'properties back into the array functions; every read is judged against the values the object holds at that '
+        'moment (velocity by increments on values; displacement and PGV/PGD also against the oracle\'s own '
+        'integral of those values, never only against the object\'s cached series). twin cases = two AccSignal '
+        'objects built from the SAME float64 caller array (or from each other\'s values, at construction or via '
+        'reset_values; n >= 64, non-zero record); all five quantities of both are read, 1-2 in-place style '
+        'corrections are applied to ONE of them, then both are read again; the untouched object\'s values and the '
+        'series obtained from it earlier are compared bit-for-bit with their earlier state. distinct = digest of '
+        '(record bytes+dtype, container, dt, options/history); non-trivial = record not identically zero.')
+ASSUMPTIONS = ['finite real 1-D record of length >= 2, dt > 0 (dt = 0, negative dt, 0-d / 2-D records: probed, counted, '
+               'not judged), trap a Python bool (0 / 1 / None / numpy.bool_: probed, not judged)',
+               'integer records of any width and magnitude are in domain; the oracle works on their float64 image '
+               '(exact below 2**53, correctly rounded above)',
+               'float16 and bool records are outside the quantifier (probed only)',
+               'tolerances are multiples of the machine epsilon of the coarsest floating dtype among the INPUTS '
+               '(record, dt): a float32 record is integrated in float32 by the '
+               'library, so the identity can only hold to float32 rounding; float32 records are generated with '
+               'dt^2*peak inside the float32 normal range',
+               'the statement has no numeric option besides dt and no thresholds/constants: "boundary values" reduce '
+               'to dt scales and exact (integer / dyadic) records, for which sign reversal and 2^k scaling are '
+               'checked to 4 ulps',
+               'exceptions raised by mutators themselves (e.g. in-place baseline corrections on integer values, '
+               'negative constants added to unsigned values) belong to other properties: counted, not judged; '
+               'reads after them are still judged',
+               'oracle vf/oracles/integrate.py (increment formulas, closed forms, reference integrals) is correct']
 MIN_EVALS = {
-    'quick': {'array.no-exception': 27000, 'array.length': 27000, 'array.start==0': 27000, 'array.finite': 27000,
-              'array.v.increments(trap)': 17000, 'array.d.increments(trap)': 17000,
-              'array.v.increments(rect)': 9000, 'array.d.increments(rect)': 9000,
-              'array.exact.const': 150, 'array.exact.linear': 250,
-              'calc_peak==max|x|': 36000, 'rel.sign': 2400, 'rel.scale.pow2': 2400, 'rel.linearity': 2400,
-              'peak.sign-invariant': 2500, 'peak.scale|alpha|': 4500,
-              'obj.length': 18000, 'obj.finite': 18000, 'obj.start==0': 18000, 'obj.velocity.increments': 9000,
-              'obj.displacement.increments': 9000, 'obj.pga==max|series|': 2900, 'obj.pgv==max|series|': 2400,
-              'obj.pgd==max|series|': 2400, 'obj.peaks==max|series| after explicit trap switch': 800,
-              'obj==array': 3000, 'obj.no-exception': 14000,
-              'obj.twin.untouched-object-still-consistent': 320},
+    'quick': {'array.no-exception': 30000, 'array.length': 30000, 'array.start==0': 30000, 'array.finite': 30000,
+              'array.args-unchanged': 32000, 'array.result-stable-after-later-calls': 2400,
+              'array.v.increments(trap)': 20000, 'array.d.increments(trap)': 20000,
+              'array.v.increments(rect)': 10000, 'array.d.increments(rect)': 10000,
+              'array.exact.const': 120, 'array.exact.linear': 180,
+              'calc_peak==max|x|': 41000, 'calc_peak.args-unchanged': 41000,
+              'rel.sign': 2400, 'rel.scale.pow2': 2400, 'rel.linearity': 2400,
+              'peak.sign-invariant': 2500, 'peak.scale|alpha|': 4700,
+              'obj.length': 27000, 'obj.finite': 27000, 'obj.start==0': 27000, 'obj.velocity.increments': 13500,
+              'obj.displacement.increments': 13500, 'obj.displacement==integral(current values)': 13500,
+              'obj.pga==max|series|': 5000, 'obj.pgv==max|series|': 4500, 'obj.pgd==max|series|': 4500,
+              'obj.peaks==peaks of integral(current values)': 10000,
+              'obj.peaks==max|series| after explicit trap switch': 1000,
+              'obj==array': 3800, 'obj.no-exception': 26000,
+              'obj.twin.untouched-object-still-consistent': 320, 'obj.twin.held-series-unchanged': 320},
 }
 MIN_EVALS['thorough'] = {k: v * 20 for k, v in MIN_EVALS['quick'].items()}
 
@@ -92,22 +117,9 @@ def _domain(acc, dt, trap=True, min_len=2):
         if not bool(np.all(np.isfinite(arr))):
             return 'nonfinite-record'
     else:
-        info = np.iinfo(arr.dtype)
-        a = arr.astype(float)
-        if arr.dtype.itemsize < 8:
-            # numpy keeps the narrow integer dtype for a[i]+a[i-1] and, when dt is an integer too, for dt*(...):
-            # records whose adjacent sums (times an integer dt) leave the dtype's range wrap around silently
-            # (ruled outside the quantifier; see probe.narrow-int-overflow.* in the observations)
-            k = abs(int(dt)) if isinstance(dt, (int, np.integer)) and not isinstance(dt, (bool, np.bool_)) else 1
-            if dt is None:      # peak of a series: only abs(min value of the dtype) cannot be represented
-                if len(a) and float(np.min(a)) <= info.min:
-                    return 'narrow-int-overflow'
-            elif len(a) and 2.0 * float(np.max(np.abs(a))) * max(1, k) > info.max:
-                return 'narrow-int-overflow'
-        elif float(np.max(np.abs(a))) >= 2.0 ** 52:
-            return 'int-beyond-2^52'
+        pass        # integer records of any width and magnitude are in domain (the oracle works on their float64 image)
     if dt is not None:
-        if isinstance(dt, (bool, np.bool_, complex)):
+        if isinstance(dt, (bool, np.bool_, complex)) or (isinstance(dt, np.ndarray) and dt.ndim != 0):
             return 'dt-type'
         try:
             f = float(dt)
@@ -121,18 +133,27 @@ def _domain(acc, dt, trap=True, min_len=2):
 # ------------------------------------------------------------------------------------------------------ witnesses
 def _container_of(x):
     if isinstance(x, list):
+        if any(type(v) is int for v in x) and any(type(v) is float for v in x):
+            return 'mixedlist'
         return 'list'
     if isinstance(x, tuple):
         return 'tuple'
-    if isinstance(x, np.ndarray) and x.ndim == 1 and x.size > 1 and x.strides[0] != x.itemsize:
-        return 'strided'
+    if isinstance(x, np.ndarray) and x.ndim == 1 and x.size > 1:
+        if x.strides[0] < 0:
+            return 'reversed'
+        if x.strides[0] != x.itemsize:
+            return 'strided'
+    if isinstance(x, np.ndarray) and not x.flags.writeable:
+        return 'readonly'
     return 'array'
 
 
 def _dt_kind(dt):
-    if isinstance(dt, np.floating):
+    if isinstance(dt, np.ndarray):
+        return 'arr0d.' + str(dt.dtype)
+    if isinstance(dt, (np.floating, np.integer)):
         return 'np.' + str(dt.dtype)
-    if isinstance(dt, (int, np.integer)):
+    if isinstance(dt, int):
         return 'int'
     return 'float'
 
@@ -140,11 +161,21 @@ def _dt_kind(dt):
 def _dt_from(w):
     dt = w['dt']
     k = w.get('dt_kind', 'float')
+    if k.startswith('arr0d.'):
+        return np.array(dt, dtype=k[6:])
     if k.startswith('np.'):
         return np.dtype(k[3:]).type(dt)
     if k == 'int':
         return int(dt)
     return float(dt)
+
+
+def _dt_is_integer(dt):
+    if isinstance(dt, (bool, np.bool_)):
+        return False
+    if isinstance(dt, (int, np.integer)):
+        return True
+    return isinstance(dt, np.ndarray) and dt.dtype.kind in 'iu'
 
 
 def materialise(base, container):
@@ -154,9 +185,17 @@ def materialise(base, container):
         return base.tolist()
     if container == 'tuple':
         return tuple(base.tolist())
+    if container == 'mixedlist':    # Python ints and floats side by side (integral values at even positions as int)
+        return [int(v) if (i % 2 == 0 and float(v) == int(v)) else float(v) for i, v in enumerate(base.tolist())]
     if container == 'strided':
         big = np.repeat(base, 2)
         return big[::2]
+    if container == 'reversed':     # negative-stride view
+        return np.array(base[::-1])[::-1]
+    if container == 'readonly':
+        a = np.array(base)
+        a.flags.writeable = False
+        return a
     return np.array(base)
 
 
@@ -190,7 +229,38 @@ def _check_inc(ctx, clause, series, integrand, dt, rules, eps, wit, label):
                      % (label, r, i, err, tol, len(series), dt))
 
 
-def check_array(ctx, fn, acc, dt, trap, result):
+def _snap(x):
+    """Bit-for-bit snapshot of an argument taken at call entry (None when it is not a container we can compare)."""
+    if isinstance(x, np.ndarray):
+        return ('nd', x.dtype, x.shape, np.array(x, copy=True))
+    if isinstance(x, list):
+        return ('list', list(x))
+    if isinstance(x, tuple):
+        return ('tuple', x)
+    return None
+
+
+def _unchanged(x, snap):
+    if snap is None:
+        return True
+    if snap[0] == 'nd':
+        return (isinstance(x, np.ndarray) and x.dtype == snap[1] and x.shape == snap[2]
+                and np.ascontiguousarray(x).tobytes() == np.ascontiguousarray(snap[3]).tobytes())
+    if type(x) is not (list if snap[0] == 'list' else tuple) or len(x) != len(snap[1]):
+        return False
+    return all(type(p) is type(q) and (p == q or (p != p and q != q)) for p, q in zip(x, snap[1]))
+
+
+def _entry_values(x, snap):
+    """The values the argument had at call entry (what the result is judged against)."""
+    if snap is None:
+        return x
+    return snap[3] if snap[0] == 'nd' else snap[1]
+
+
+def check_array(ctx, fn, acc, dt, trap, result, orig=None):
+    """acc: the record as it was at call entry; orig: the argument object itself (container naming only)."""
+    orig = acc if orig is None else orig
     why = _domain(acc, dt, trap)
     if why:
         ctx.observe('out-of-domain:' + why)
@@ -198,8 +268,9 @@ def check_array(ctx, fn, acc, dt, trap, result):
     ctx.ok('array.no-exception')
     a = np.asarray(acc)
     n = len(a)
-    wit = lambda: _wit_array(fn, acc, dt, trap)
-    label = '%s(n=%d %s %s, dt=%r, trap=%r)' % (fn, n, _container_of(acc), a.dtype, dt, trap)
+    cont = _container_of(orig)
+    wit = lambda: dict(_wit_array(fn, acc, dt, trap), container=cont)
+    label = '%s(n=%d %s %s, dt=%r, trap=%r)' % (fn, n, cont, a.dtype, dt, trap)
     try:
         v, d = result
         v = np.asarray(v)
@@ -233,37 +304,69 @@ def _parse_array_call(args, kwargs):
     return acc, dt, trap
 
 
-def _post_calc(args, kwargs, result, pre):
+def _pre_array(args, kwargs):
+    try:
+        acc, dt, trap = _parse_array_call(args, kwargs)
+    except Exception:
+        return None
+    return _snap(acc), _snap(dt)
+
+
+def _post_array(fn, args, kwargs, result, pre):
     acc, dt, trap = _parse_array_call(args, kwargs)
-    check_array(CTX, 'calc_velo_and_disp_from_accel_arr', acc, dt, trap, result)
+    s_acc, s_dt = pre if pre is not None else (None, None)
+    entry = _entry_values(acc, s_acc)
+    if _domain(entry, dt, trap) is None:
+        CTX.check(_unchanged(acc, s_acc) and _unchanged(dt, s_dt), 'array.args-unchanged',
+                  lambda: dict(_wit_array(fn, entry, dt, trap), container=_container_of(acc)),
+                  '%s changed its %s argument (n=%d, %s, trap=%r)'
+                  % (fn, 'acceleration' if not _unchanged(acc, s_acc) else 'dt', len(entry), _container_of(acc), trap))
+    check_array(CTX, fn, entry, dt, trap, result, orig=acc)
+
+
+def _post_calc(args, kwargs, result, pre):
+    _post_array('calc_velo_and_disp_from_accel_arr', args, kwargs, result, pre)
 
 
 def _post_vdfa(args, kwargs, result, pre):
-    acc, dt, trap = _parse_array_call(args, kwargs)
-    check_array(CTX, 'velocity_and_displacement_from_acceleration', acc, dt, trap, result)
+    _post_array('velocity_and_displacement_from_acceleration', args, kwargs, result, pre)
 
 
-def check_peak(ctx, fn, motion, result):
+def check_peak(ctx, fn, motion, result, orig=None, snap=None):
+    orig = motion if orig is None else orig
     why = _domain(motion, None, True, min_len=1)
     if why:
         ctx.observe('out-of-domain(peak):' + why)
         return
+    if snap is not None:
+        ctx.check(_unchanged(orig, snap), 'calc_peak.args-unchanged',
+                  lambda: {'kind': 'peak', 'fn': fn, 'motion': np.asarray(motion), 'container': _container_of(orig)},
+                  '%s changed its argument (n=%d, %s)' % (fn, len(motion), _container_of(orig)))
     ref = O.max_abs(motion)
     try:
         got = float(result)
     except Exception:
         got = float('nan')
     ctx.check(got == ref, 'calc_peak==max|x|',
-              lambda: {'kind': 'peak', 'fn': fn, 'motion': np.asarray(motion), 'container': _container_of(motion)},
+              lambda: {'kind': 'peak', 'fn': fn, 'motion': np.asarray(motion), 'container': _container_of(orig)},
               '%s(n=%d) -> %r, max|x| = %r' % (fn, len(motion), result, ref))
 
 
+def _pre_peak(args, kwargs):
+    try:
+        return _snap(args[0] if args else kwargs['motion'])
+    except Exception:
+        return None
+
+
 def _post_calc_peak(args, kwargs, result, pre):
-    check_peak(CTX, 'calc_peak', args[0] if args else kwargs['motion'], result)
+    m = args[0] if args else kwargs['motion']
+    check_peak(CTX, 'calc_peak', _entry_values(m, pre), result, orig=m, snap=pre)
 
 
 def _post_calculate_peak(args, kwargs, result, pre):
-    check_peak(CTX, 'calculate_peak', args[0] if args else kwargs['motion'], result)
+    m = args[0] if args else kwargs['motion']
+    check_peak(CTX, 'calculate_peak', _entry_values(m, pre), result, orig=m, snap=pre)
 
 
 def check_obj_series(ctx, obj, name, result):
@@ -292,6 +395,34 @@ def check_obj_series(ctx, obj, name, result):
         with attach.paused():
             v = obj.velocity
         _check_inc(ctx, 'obj.displacement.increments', rf, O.f64(v), dt, rules, O.eps_of(vals, dt), wit, label)
+        # ... and against the record the object holds NOW, without going through the object's cached velocity
+        err, tol, rv, rd = _vs_current_values(vals, dt, mode, 'd-series', rf)
+        ctx.check(err <= tol, 'obj.displacement==integral(current values)', wit,
+                  '%s: differs from the double integral (%s/%s rule) of the current values by %.3g (allowed %.3g)'
+                  % (label, rv, rd, err, tol))
+
+
+def _vs_current_values(vals, dt, mode, which, got):
+    """Compare a series / peak with what the oracle integrates from the record alone; the closest admissible rule
+    combination counts. Returns (err, tol, velocity rule, displacement rule)."""
+    n = len(vals)
+    eps = O.eps_of(vals, dt)
+    amax = O.max_abs(vals)
+    best = None
+    for rv, rd, v, d in O.reference_pairs(vals, dt, bool(mode)):
+        tv, td = O.running_sum_tolerances(eps, n, dt, amax, O.max_abs(v), O.max_abs(d))
+        with np.errstate(invalid='ignore'):
+            if which == 'd-series':
+                err, tol = float(np.max(np.abs(got - d))) if np.shape(got) == d.shape else float('inf'), td
+            elif which == 'pgv':
+                err, tol = abs(got - O.max_abs(v)), tv
+            else:
+                err, tol = abs(got - O.max_abs(d)), td
+        if err != err:
+            err = float('inf')
+        if best is None or err - tol < best[0] - best[1]:
+            best = (err, tol, rv, rd)
+    return best
 
 
 def check_obj_peak(ctx, obj, name, result):
@@ -313,6 +444,14 @@ def check_obj_peak(ctx, obj, name, result):
               'AccSignal.%s = %r but max|%s| of the series the object exposes = %r (n=%d, dt=%r, trap=%r)'
               % (name, result, {'pga': 'values', 'pgv': 'velocity', 'pgd': 'displacement'}[name], ref,
                  len(np.asarray(obj.values)), obj.dt, MODE.get(obj, True)))
+    mode = MODE.get(obj, True)
+    if name in ('pgv', 'pgd') and mode is not None:
+        # independent of every cache of the object: the peak of what the oracle integrates from the current values
+        err, tol, rv, rd = _vs_current_values(np.asarray(obj.values), obj.dt, mode, name, got)
+        ctx.check(err <= tol, 'obj.peaks==peaks of integral(current values)', lambda: _wit_obj(obj, name),
+                  'AccSignal.%s = %r differs from the peak of the %s integral of the current values by %.3g (allowed '
+                  '%.3g; n=%d, dt=%r, trap=%r)' % (name, result, 'single' if name == 'pgv' else 'double', err, tol,
+                                                   len(np.asarray(obj.values)), obj.dt, mode))
 
 
 def _wrap_property(cls, name, post):
@@ -370,10 +509,10 @@ def install(ctx):
     _INSTALLED = True
     import eqsig
     import eqsig.displacements
-    attach.wrap(eqsig.displacements, 'calc_velo_and_disp_from_accel_arr', _post_calc)
-    attach.wrap(eqsig.displacements, 'velocity_and_displacement_from_acceleration', _post_vdfa)
-    attach.wrap(eqsig.im, 'calc_peak', _post_calc_peak)
-    attach.wrap(eqsig.im, 'calculate_peak', _post_calculate_peak)
+    attach.wrap(eqsig.displacements, 'calc_velo_and_disp_from_accel_arr', _post_calc, pre=_pre_array)
+    attach.wrap(eqsig.displacements, 'velocity_and_displacement_from_acceleration', _post_vdfa, pre=_pre_array)
+    attach.wrap(eqsig.im, 'calc_peak', _post_calc_peak, pre=_pre_peak)
+    attach.wrap(eqsig.im, 'calculate_peak', _post_calculate_peak, pre=_pre_peak)
     A = eqsig.AccSignal
     _wrap_generate(A)
     _wrap_property(A, 'velocity', lambda self, r: check_obj_series(CTX, self, 'velocity', r))
@@ -383,15 +522,24 @@ def install(ctx):
 
 
 # ------------------------------------------------------------------------------------------------------ generators
-ARRAY_CONTAINERS = ['f64', 'f64', 'f64', 'f32', 'f32', 'i64', 'i64', 'i32', 'i16', 'strided', 'list', 'list', 'tuple',
-                    'intlist']
-OBJ_CONTAINERS = ['f64', 'f64', 'f32', 'f32', 'i64', 'i64', 'i32', 'list', 'list', 'tuple', 'intlist', 'strided']
-EXTRA_CLASSES = ['neg-only', 'pos-only', 'const', 'linear', 'linear']
+ARRAY_CONTAINERS = ['f64', 'f64', 'f64', 'f32', 'f32', 'i64', 'i64', 'i32', 'i16', 'i8', 'u8', 'u16', 'strided',
+                    'reversed', 'readonly', 'list', 'list', 'tuple', 'intlist', 'mixedlist', 'narrow-full']
+OBJ_CONTAINERS = ['f64', 'f64', 'f32', 'f32', 'i64', 'i64', 'i32', 'i16', 'i8', 'u8', 'u16', 'list', 'list', 'tuple',
+                  'intlist', 'mixedlist', 'strided', 'reversed', 'readonly', 'narrow-full']
+EXTRA_CLASSES = ['neg-only', 'pos-only', 'const', 'const', 'linear', 'linear', 'linear', 'extreme-first', 'extreme-last',
+                 'plateau-start', 'plateau-end', 'ends-after-sign-change', 'offset-small-signal', 'scaled']
+INT_TOP = {'i64': 1e9, 'i32': 1e6, 'i16': 32000.0, 'i8': 127.0, 'u8': 255.0, 'u16': 65000.0, 'intlist': 1e6}
+INT_DTYPE = {'i64': np.int64, 'i32': np.int32, 'i16': np.int16, 'i8': np.int8, 'u8': np.uint8, 'u16': np.uint16,
+             'intlist': np.int64}
+CALL_STYLES = ['kw', 'kw', 'pos', 'allkw', 'default']
 
 
 def pick_n(rng, nmax=5000):
-    if rng.random() < 0.6:
+    r = rng.random()
+    if r < 0.5:
         n = int(rng.choice([2, 3, 4, 5, 7, 16, 50, 200, 1000, 5000], p=[.1, .1, .08, .08, .08, .12, .16, .16, .08, .04]))
+    elif r < 0.65:      # around every power of two
+        n = 2 ** int(rng.integers(1, 13)) + int(rng.integers(-1, 2))
     else:
         n = int(round(10.0 ** rng.uniform(np.log10(2), np.log10(nmax))))
     return max(2, min(n, nmax))
@@ -399,21 +547,29 @@ def pick_n(rng, nmax=5000):
 
 def pick_dt(rng):
     r = rng.random()
-    if r < 0.70:
+    if r < 0.58:
         dt = gen.dt(rng)
-    elif r < 0.85:
+    elif r < 0.70:
         dt = float(10.0 ** rng.uniform(-5, 1))
-    elif r < 0.93:
+    elif r < 0.80:
+        dt = float(10.0 ** rng.uniform(-9, 3))
+    elif r < 0.87:
         dt = int(rng.choice([1, 2, 3]))
-    else:
+    elif r < 0.91:
         dt = np.float64(gen.dt(rng))
+    elif r < 0.95:
+        dt = np.float32(gen.dt(rng))
+    elif r < 0.975:
+        dt = np.int64(rng.choice([1, 2, 3]))
+    else:
+        dt = np.array(gen.dt(rng))      # 0-d array
     return dt
 
 
 def pick_record(rng, n):
     """(float64 record, class, lin) - lin=(a0, k) when the record is exactly a0 + k*i (closed forms apply)."""
     lin = None
-    if rng.random() < 0.3:
+    if rng.random() < 0.45:
         cls = EXTRA_CLASSES[int(rng.integers(len(EXTRA_CLASSES)))]
         if cls in ('neg-only', 'pos-only'):
             x, _ = gen.record(rng, n, cls=['noise', 'walk', 'sine', 'quake', 'intnoise'][int(rng.integers(5))])
@@ -421,6 +577,8 @@ def pick_record(rng, n):
             x = x - off if cls == 'neg-only' else x + off
             if rng.random() < 0.5:
                 x = np.round(x)
+        elif cls not in ('const', 'linear'):
+            x = _shaped_record(rng, n, cls)
         elif cls == 'const':
             a0 = float(rng.choice([-2.0, 0.5, 1.0, 3.0, -7.0, float(np.round(rng.normal() * 10, 2))]))
             x = np.full(n, a0)
@@ -439,14 +597,59 @@ def pick_record(rng, n):
     return np.asarray(x, dtype=float), cls, lin
 
 
+def _shaped_record(rng, n, cls):
+    """Records with the extreme at the first/last sample, plateaus at the ends, a sign change before the last sample,
+    a large offset under a small signal, or a peak anywhere in 1e-12 .. 1e12."""
+    x, _ = gen.record(rng, n, cls=['noise', 'walk', 'sine', 'quake', 'intnoise', 'beat'][int(rng.integers(6))])
+    x = np.asarray(x, dtype=float)
+    peak = float(np.max(np.abs(x))) or 1.0
+    sgn = float(rng.choice([-1.0, 1.0]))
+    if cls == 'extreme-first':
+        x[0] = sgn * (peak * float(rng.choice([1.0 + 2 ** -20, 2.0, 10.0])))
+    elif cls == 'extreme-last':
+        x[-1] = sgn * (peak * float(rng.choice([1.0 + 2 ** -20, 2.0, 10.0])))
+    elif cls == 'plateau-start':
+        m = min(n - 1, int(rng.integers(1, n // 3 + 2)))
+        x[:m] = x[m]
+    elif cls == 'plateau-end':
+        m = min(n - 1, int(rng.integers(1, n // 3 + 2)))
+        x[-m:] = x[-m - 1]
+    elif cls == 'ends-after-sign-change':
+        if x[-2] == 0:
+            x[-2] = peak
+        x[-1] = -np.sign(x[-2]) * peak * float(rng.choice([1e-3, 0.5, 1.0, 3.0]))
+    elif cls == 'offset-small-signal':
+        x = sgn * 10.0 ** rng.uniform(3, 8) + x / peak * 10.0 ** rng.uniform(-6, -2)
+    elif cls == 'scaled':
+        x = x * (10.0 ** rng.uniform(-12, 12) / peak)
+    return x
+
+
 def to_container(rng, x, kind, lin=None, dt=1.0):
     """(base ndarray of the final dtype, container kind for materialise, lin adjusted to the stored record)."""
     x = np.asarray(x, dtype=float)
-    if kind in ('i64', 'i32', 'i16', 'intlist'):
+    if kind == 'narrow-full':
+        # integers using most of the dtype's range: sums of neighbours (and integer dt * sample) leave the dtype
+        sub = ['i8', 'u8', 'u16', 'i16', 'i8', 'i16', 'i32', 'i64'][int(rng.integers(8))]
+        info = np.iinfo(INT_DTYPE[sub])
+        peak = float(np.max(np.abs(x))) or 1.0
+        if sub[0] == 'u':
+            xi = np.round((x - np.min(x)) / (float(np.max(x) - np.min(x)) or 1.0) * 0.95 * info.max)
+        else:
+            xi = np.round(x / peak * 0.95 * info.max)
+        xi = xi.astype(INT_DTYPE[sub])
+        r = rng.random()
+        if r < 0.3:
+            xi[int(rng.integers(len(xi)))] = info.min       # abs(iinfo.min) is not representable in the dtype
+        elif r < 0.5:
+            xi[int(rng.integers(len(xi)))] = info.max
+        return xi, ['array', 'array', 'strided', 'readonly'][int(rng.integers(4))], None
+    if kind in INT_TOP:
+        if kind[0] == 'u':
+            x = np.abs(x)
+            lin = None
         peak = float(np.max(np.abs(x))) if x.size else 0.0
-        top = {'i64': 1e9, 'i32': 1e6, 'i16': 16000.0, 'intlist': 1e6}[kind]
-        if kind == 'i16' and isinstance(dt, (int, np.integer)):
-            top = float(int(top / max(1, abs(int(dt)))))      # keep dt*(a[i]+a[i-1]) inside int16 as well
+        top = INT_TOP[kind]
         if lin is not None:
             a0 = float(np.round(lin[0]))
             k = float(np.round(lin[1])) if lin[1] != 0 else 0.0
@@ -459,24 +662,39 @@ def to_container(rng, x, kind, lin=None, dt=1.0):
             lin = (a0, k)
         else:
             if peak > 0 and (peak < 5 or peak > top):
-                x = x * (float(rng.choice([10.0, 100.0, 1000.0])) / peak)
+                x = x * (min(top, float(rng.choice([10.0, 100.0, 1000.0]))) / peak)
             xi = np.round(x)
-        dtype = {'i64': np.int64, 'i32': np.int32, 'i16': np.int16, 'intlist': np.int64}[kind]
-        return xi.astype(dtype), ('list' if kind == 'intlist' else 'array'), lin
+        return xi.astype(INT_DTYPE[kind]), ('list' if kind == 'intlist' else 'array'), lin
     if kind == 'f32':
+        # the library integrates a float32 record in float32: keep dt^2*peak away from float32 underflow / overflow
+        peak = float(np.max(np.abs(x))) if x.size else 0.0
+        span = (len(x) * abs(float(dt))) ** 2
+        if peak > 0 and (peak * float(dt) ** 2 < 1e-24 or peak * max(span, 1.0) > 1e30 or peak > 1e30):
+            x = x * (1.0 / peak)
+            if float(dt) ** 2 < 1e-24 or max(span, 1.0) > 1e30:
+                return x, 'array', None     # this dt cannot be served in float32 at all: keep the record float64
+            lin = None
         b = x.astype(np.float32)
         if lin is not None and not np.array_equal(b.astype(float), x):
             lin = None          # record no longer exactly linear after rounding to float32: closed form not claimed
         return b, 'array', lin
-    if kind in ('list', 'tuple', 'strided'):
+    if kind == 'mixedlist':
+        x = np.array(x)
+        peak = float(np.max(np.abs(x))) if x.size else 0.0
+        if 0 < peak and (peak < 5 or peak > 1e9):
+            x = x * (100.0 / peak)
+        x[::2] = np.round(x[::2])       # integral values at even positions become Python ints
+        return x, kind, None
+    if kind in ('list', 'tuple', 'strided', 'reversed', 'readonly'):
         return x, kind, lin
     return x, 'array', lin
 
 
-def make_array_case(rng):
-    n = pick_n(rng)
+def make_array_case(rng, n=None, kinds=None):
+    n = pick_n(rng) if n is None else n
     x, cls, lin = pick_record(rng, n)
-    kind = ARRAY_CONTAINERS[int(rng.integers(len(ARRAY_CONTAINERS)))]
+    kinds = ARRAY_CONTAINERS if kinds is None else kinds
+    kind = kinds[int(rng.integers(len(kinds)))]
     dt = pick_dt(rng)
     base, cont, lin = to_container(rng, x, kind, lin, dt)
     y, ycls, _ = pick_record(rng, n)
@@ -488,7 +706,8 @@ def make_array_case(rng):
             'pow2': float(rng.choice([-1.0, 1.0]) * 2.0 ** int(rng.integers(-3, 6))),
             'alpha': float(rng.choice([-1.0, 1.0]) * 10.0 ** rng.uniform(-2, 2)),
             'beta': float(rng.choice([-1.0, 1.0]) * 10.0 ** rng.uniform(-2, 2)),
-            'other': y, 'deprecated_peak': bool(rng.random() < 0.1)}
+            'other': y, 'deprecated_peak': bool(rng.random() < 0.1),
+            'style': CALL_STYLES[int(rng.integers(len(CALL_STYLES)))]}
 
 
 MUTATORS = ['reset_values', 'add_constant', 'add_series', 'add_signal', 'remove_average', 'remove_poly',
@@ -508,28 +727,38 @@ def _reads(rng, full=False):
     return r
 
 
-def make_object_scenario(rng, nmax=1500):
-    n = pick_n(rng, nmax)
+def _feed(rng):
+    """Hand one of the object's own arrays (values / cached velocity / cached displacement) to the array functions."""
+    return ['feed', ['values', 'velocity', 'displacement'][int(rng.integers(3))], bool(rng.random() < 0.6),
+            CALL_STYLES[int(rng.integers(len(CALL_STYLES)))]]
+
+
+def make_object_scenario(rng, nmax=1500, n=None):
+    n = pick_n(rng, nmax) if n is None else n
     x, cls, _ = pick_record(rng, n)
     kind = OBJ_CONTAINERS[int(rng.integers(len(OBJ_CONTAINERS)))]
-    base, cont, _ = to_container(rng, x, kind)
     dt = pick_dt(rng)
+    base, cont, _ = to_container(rng, x, kind, None, dt)
     ops = []
     if rng.random() < 0.85:
         ops.append(['read', _reads(rng)])
+        if rng.random() < 0.4:
+            ops.append(_feed(rng))
+            ops.append(['read', _reads(rng)])
         ops.append(['agree'])
     for _ in range(int(rng.integers(1, 6))):
         m = MUTATORS[int(rng.integers(len(MUTATORS)))]
         if m == 'reset_values':
             n = pick_n(rng, nmax)
             y, _, _ = pick_record(rng, n)
-            b, c, _ = to_container(rng, y, OBJ_CONTAINERS[int(rng.integers(len(OBJ_CONTAINERS)))])
+            b, c, _ = to_container(rng, y, OBJ_CONTAINERS[int(rng.integers(len(OBJ_CONTAINERS)))], None, dt)
             op = [m, b, c]
         elif m == 'add_constant':
             op = [m, [1, -2, 0.5, float(rng.normal() * 10.0 ** rng.uniform(-2, 2))][int(rng.integers(4))]]
         elif m in ('add_series', 'add_signal'):
             y, _, _ = pick_record(rng, n)
-            b, c, _ = to_container(rng, y, ['f64', 'list', 'i64', 'f32'][int(rng.integers(4))])
+            b, c, _ = to_container(rng, y, ['f64', 'list', 'i64', 'f32', 'readonly', 'reversed', 'mixedlist', 'i16'][
+                int(rng.integers(8))], None, dt)
             op = [m, b, c]
         elif m == 'remove_poly':
             op = [m, int(rng.integers(0, min(3, n - 1) + 1))]
@@ -548,11 +777,14 @@ def make_object_scenario(rng, nmax=1500):
         elif m == 'remove_rolling_average':
             op = [m, 'velocity' if rng.random() < 0.6 else 'acceleration', int(rng.integers(2, 10))]
         elif m == 'generate':
-            op = [m, bool(rng.random() < 0.35)]
+            op = [m, bool(rng.random() < 0.35), ['kw', 'pos', 'default'][int(rng.integers(3))]]
         else:
             op = [m]
         ops.append(op)
         ops.append(['read', _reads(rng, full=rng.random() < 0.6)])
+        if rng.random() < 0.3:
+            ops.append(_feed(rng))
+            ops.append(['read', _reads(rng)])
         ops.append(['agree'])
     return {'kind': 'object', 'acc': base, 'container': cont, 'ckind': kind, 'cls': cls, 'dt': dt,
             'dt_kind': _dt_kind(dt), 'ops': ops}
@@ -563,7 +795,7 @@ def _scaled(base, factor):
     """base*factor in the dtype of base when that is exact for integers, else float64 (float32 stays float32)."""
     base = np.asarray(base)
     if base.dtype.kind in 'iu':
-        if float(factor) == int(factor):
+        if float(factor) == int(factor) and O.max_abs(base) * abs(factor) < 2.0 ** 62:
             return base.astype(np.int64) * int(factor)
         return base.astype(float) * float(factor)
     return base * float(factor)     # Python float is a weak scalar: float32 stays float32
@@ -579,11 +811,22 @@ def _rel_tols(eps, n, dt, vs, As, ds):
     return tv, td
 
 
+def _styled_call(fn, X, dt, trap, style):
+    """The same call written positionally, by keyword, or relying on the default of trap."""
+    if style == 'pos':
+        return fn(X, dt, trap)
+    if style == 'allkw':
+        return fn(acceleration=X, dt=dt, trap=trap)
+    if style == 'default' and trap is True:
+        return fn(X, dt)
+    return fn(X, dt, trap=trap)
+
+
 def _call_int(ctx, fn, fname, X, dt, trap, case):
     try:
         with warnings.catch_warnings():
             warnings.simplefilter('ignore')
-            return fn(X, dt, trap=trap)
+            return _styled_call(fn, X, dt, trap, case.get('style', 'kw'))
     except Exception as e:
         if _domain(X, dt, trap) is None:
             w = dict(case)
@@ -607,6 +850,25 @@ def _peak(ctx, eqsig, x, case, deprecated=False):
 
 
 def run_array_case(eqsig, ctx, case):
+    """One array case; afterwards the results of its FIRST calls (still held) must be what they were when returned,
+    although several other records of the same shape went through the same functions in between, and the argument
+    object handed to all those calls must still be bit-for-bit the stored record."""
+    held = []
+    _array_case(eqsig, ctx, case, held)
+    if held:
+        X, base, results = held[0], held[1], held[2:]
+        okk = all(np.asarray(r).dtype == c.dtype and np.shape(r) == c.shape
+                  and np.ascontiguousarray(r).tobytes() == c.tobytes() for r, c in results)
+        ctx.check(okk, 'array.result-stable-after-later-calls', lambda: dict(case),
+                  'a (velocity, displacement) result held by the caller changed while later calls with other records '
+                  'of the same shape were made (n=%d, dt=%r)' % (len(base), case['dt']))
+        same = np.array_equal(np.asarray(X, dtype=base.dtype) if isinstance(X, (list, tuple)) else X, base) and (
+            isinstance(X, (list, tuple)) or X.dtype == base.dtype)
+        ctx.check(same, 'array.args-unchanged', lambda: dict(case),
+                  'the record object passed to every call of the case no longer equals the stored record')
+
+
+def _array_case(eqsig, ctx, case, held):
     fname = case['fn']
     fn = getattr(eqsig.displacements, fname)
     base = np.asarray(case['acc'])
@@ -618,12 +880,16 @@ def run_array_case(eqsig, ctx, case):
     Ax = O.max_abs(xs)
     wit = lambda: dict(case)
     why = _domain(X, dt, True)
-    if why:             # never judged (the generators do not produce these; old witnesses may)
+    if why:             # never judged
         ctx.observe('out-of-domain-case:' + why)
         return
     res = {}
+    held.extend([X, base])
     for trap in (True, False):
         res[trap] = _call_int(ctx, fn, fname, X, dt, trap, case)
+        r = res[trap]
+        if r is not None and isinstance(r, tuple) and len(r) == 2:
+            held.extend([(q, np.array(q, copy=True)) for q in r if isinstance(q, np.ndarray)])
     dep = bool(case.get('deprecated_peak'))
     p_x = _peak(ctx, eqsig, X, case, dep)
     # closed forms implied by the increment identity (trap=True only)
@@ -768,7 +1034,13 @@ def _apply_mutator(eqsig, a, op):
     elif m == 'clear_cache':
         a.clear_cache()
     elif m == 'generate':
-        a.generate_displacement_and_velocity_series(trap=bool(op[1]))
+        style = op[2] if len(op) > 2 else 'kw'
+        if style == 'pos':
+            a.generate_displacement_and_velocity_series(bool(op[1]))
+        elif style == 'default' and bool(op[1]):
+            a.generate_displacement_and_velocity_series()
+        else:
+            a.generate_displacement_and_velocity_series(trap=bool(op[1]))
     else:
         raise ValueError('unknown op %r' % (m,))
 
@@ -799,6 +1071,22 @@ def run_object_scenario(eqsig, ctx, scen):
                             ctx.exception('obj.no-exception', dict(scen, failed_at='op %d read %s' % (k, nm)), e)
                 elif op[0] == 'agree':
                     _agree(eqsig, ctx, a, scen, k)
+                elif op[0] == 'feed':
+                    # the array the property hands out goes straight into the array functions (monitored: result,
+                    # purity of the argument); the reads that follow re-judge the object against its values
+                    if _domain(a.values, a.dt, True) is not None:
+                        continue
+                    try:
+                        src = getattr(a, op[1])
+                        _styled_call(eqsig.displacements.calc_velo_and_disp_from_accel_arr, src, a.dt, bool(op[2]),
+                                     op[3])
+                        eqsig.im.calc_peak(src)
+                        ctx.ok('obj.no-exception')
+                    except Exception as e:
+                        if _domain(getattr(a, op[1]), a.dt, True) is None:
+                            ctx.exception('obj.no-exception', dict(scen, failed_at='op %d feed %s' % (k, op[1])), e)
+                        else:
+                            ctx.observe('out-of-domain-exception')
                 else:
                     try:
                         _apply_mutator(eqsig, a, op)
@@ -894,6 +1182,9 @@ def run_twin_scenario(eqsig, ctx, scen):
             _read_all(ctx, raw, scen['reads0'], scen, 'raw')        # fills the lazy caches of both
             _read_all(ctx, cor, scen['reads1'], scen, 'cor')
             before = np.array(raw.values, copy=True)
+            with attach.paused():       # the series the caller still holds from the untouched object
+                held = [raw.velocity, raw.displacement]
+            held_copy = [np.array(h, copy=True) for h in held]
             for op in scen['ops']:
                 try:
                     _apply_mutator(eqsig, cor, op)
@@ -915,6 +1206,11 @@ def run_twin_scenario(eqsig, ctx, scen):
                       'link=%s: %s applied to the OTHER object changed this object\'s values (%s); its cached '
                       'velocity/displacement/peaks no longer belong to the record it holds'
                       % (link, [o[0] for o in scen['ops']], _msg() if not same else ''))
+            ctx.check(all(np.asarray(h).shape == c.shape and np.asarray(h).tobytes() == c.tobytes()
+                          for h, c in zip(held, held_copy)), 'obj.twin.held-series-unchanged',
+                      lambda: dict(scen, failed_at='held velocity/displacement of raw'),
+                      'link=%s: velocity/displacement arrays obtained from the untouched object changed while %s ran '
+                      'on the other object' % (link, [o[0] for o in scen['ops']]))
             _read_all(ctx, raw, scen['reads1'], scen, 'raw')
             _read_all(ctx, cor, scen['reads0'], scen, 'cor')
             _agree(eqsig, ctx, raw, scen, -1)
@@ -956,26 +1252,28 @@ def _probes(eqsig, ctx):
     f = eqsig.displacements.calc_velo_and_disp_from_accel_arr
     with warnings.catch_warnings():
         warnings.simplefilter('ignore')
-        for dtype, val in ((np.int8, 100), (np.int16, 30000)):
-            x = np.array([val, val, val], dtype=dtype)
-            try:
-                v, _ = f(x, 1.0)
-                ctx.observe('probe.narrow-int-overflow.%s.%s' % (np.dtype(dtype).name,
-                                                                 'wrong' if v[1] != float(val) else 'right'))
-            except Exception as e:
-                ctx.observe('probe.narrow-int-overflow.%s.%s' % (np.dtype(dtype).name, type(e).__name__))
-        for trap in (True, False):
-            try:
-                v, _ = f(np.array([12000, 12000, 12000], dtype=np.int16), 3, trap=trap)
-                ctx.observe('probe.narrow-int-overflow.int16-with-int-dt.trap=%r.%s'
-                            % (trap, 'wrong' if v[1] != 36000.0 else 'right'))
-            except Exception as e:
-                ctx.observe('probe.narrow-int-overflow.int16-with-int-dt.trap=%r.%s' % (trap, type(e).__name__))
         try:
             v, _ = f(np.array([1.0, 2.0, 4.0]), 1.0, trap=np.bool_(False))
             ctx.observe('probe.trap=np.False_.uses-%s' % ('rectangle' if v[1] in (1.0, 2.0) else 'trapezoid'))
         except Exception as e:
             ctx.observe('probe.trap=np.False_.%s' % type(e).__name__)
+        x3 = np.array([1.0, 2.0, 4.0])
+        for label, call in (('trap=0', lambda: f(x3, 1.0, trap=0)), ('trap=1', lambda: f(x3, 1.0, trap=1)),
+                            ('trap=None', lambda: f(x3, 1.0, trap=None)), ('dt=0', lambda: f(x3, 0.0)),
+                            ('dt=-1', lambda: f(x3, -1.0)), ('record-0d', lambda: f(np.array(1.0), 1.0)),
+                            ('record-scalar', lambda: f(1.0, 1.0)), ('record-2d', lambda: f(np.ones((2, 3)), 1.0)),
+                            ('record-float16', lambda: f(x3.astype(np.float16), 1.0)),
+                            ('record-bool', lambda: f(np.array([True, False, True]), 1.0)),
+                            ('dt-float32.f64-record', lambda: f(x3, np.float32(0.1)))):
+            try:
+                v, d = call()
+                v = np.asarray(v, dtype=float)
+                what = ('trapezoid' if v.shape == (3,) and v[1] == 1.5 else
+                        'rectangle' if v.shape == (3,) and v[1] in (1.0, 2.0) else
+                        'shape%s.dtype=%s' % (np.shape(v), np.asarray(call()[0]).dtype))
+                ctx.observe('probe.%s.%s' % (label, what))
+            except Exception as e:
+                ctx.observe('probe.%s.%s' % (label, type(e).__name__))
         for n in (0, 1):
             for trap in (True, False):
                 try:
@@ -996,6 +1294,21 @@ def _fixed_cases():
                         'dt': dt, 'dt_kind': _dt_kind(dt), 'lin': None, 'fn': 'calc_velo_and_disp_from_accel_arr',
                         'rel_trap': False, 'pow2': -4.0, 'alpha': 3.7, 'beta': -0.3,
                         'other': np.arange(len(base), dtype=float), 'deprecated_peak': False})
+    for base, dt in ((np.array([100, 100, 100], dtype=np.int8), 1.0), (np.array([200, 200, 200], dtype=np.uint8), 0.5),
+                     (np.array([30000, 30000, -30000], dtype=np.int16), 0.01),
+                     (np.array([12000, 12000, 12000], dtype=np.int16), 3),
+                     (np.array([60000, 60000, 1], dtype=np.uint16), np.int64(2)),
+                     (np.array([2 ** 31 - 5, 2 ** 31 - 5, -2 ** 31], dtype=np.int32), 2),
+                     (np.array([-128, 5, 100], dtype=np.int8), 1)):
+        out.append({'kind': 'arraycase', 'acc': base, 'container': 'array', 'ckind': 'fixed-narrow', 'cls': 'fixed',
+                    'dt': dt, 'dt_kind': _dt_kind(dt), 'lin': None, 'fn': 'calc_velo_and_disp_from_accel_arr',
+                    'rel_trap': True, 'pow2': 2.0, 'alpha': -1.7, 'beta': 0.3,
+                    'other': np.arange(len(base), dtype=float), 'deprecated_peak': False, 'style': 'pos'})
+        out.append({'kind': 'object', 'acc': base, 'container': 'array', 'ckind': 'fixed-narrow', 'cls': 'fixed',
+                    'dt': dt, 'dt_kind': _dt_kind(dt),
+                    'ops': [['read', list(READS)], ['agree'], ['add_constant', 1], ['read', list(READS)],
+                            ['rebase_displacement'], ['read', list(READS[::-1])], ['agree'],
+                            ['generate', False, 'pos'], ['read', list(READS)], ['agree']]})
     out.append({'kind': 'object', 'acc': np.array([1.0, 2.0]), 'container': 'array', 'ckind': 'fixed', 'cls': 'fixed',
                 'dt': 1.0, 'dt_kind': 'float',
                 'ops': [['read', ['pgv', 'pgd']], ['generate', False], ['read', ['velocity', 'pgv', 'pgd', 'pga']],
@@ -1040,8 +1353,24 @@ def run_shard(ctx):
         _register(ctx, case)
         {'arraycase': run_array_case, 'object': run_object_scenario, 'twin': run_twin_scenario}[case['kind']](
             eqsig, ctx, case)
-    n_arr = (4800 if quick else 110000) // ctx.nshards + 1
-    n_obj = (1600 if quick else 36000) // ctx.nshards + 1
+    # a few long records past 2**16 (cheap containers only)
+    longs = [65537, 70001, 2 ** 17 + 1, 100000]
+    for j in range(1 if quick else 3):
+        if quick and ctx.shard >= 6:
+            break
+        nl = longs[(ctx.shard + j) % len(longs)]
+        if ctx.shard % 3 == 2 and j == 0:
+            scen = make_object_scenario(rng, nmax=1500, n=nl)
+            scen['ops'] = [o for o in scen['ops'] if o[0] not in ('running_average', 'remove_rolling_average',
+                                                                  'correct_me')][:9]
+            _register(ctx, scen)
+            run_object_scenario(eqsig, ctx, scen)
+        else:
+            case = make_array_case(rng, n=nl, kinds=['f64', 'f32', 'i32', 'list', 'readonly', 'reversed'])
+            _register(ctx, case)
+            run_array_case(eqsig, ctx, case)
+    n_arr = (4800 if quick else 160000) // ctx.nshards + 1
+    n_obj = (1600 if quick else 54000) // ctx.nshards + 1
     for c in range(n_arr):
         case = make_array_case(rng)
         _register(ctx, case)
@@ -1056,7 +1385,7 @@ def run_shard(ctx):
         if ctx.out_of_time():
             ctx.observe('stopped-by-deadline')
             break
-    n_twin = (640 if quick else 14000) // ctx.nshards + 1
+    n_twin = (640 if quick else 20000) // ctx.nshards + 1
     for c in range(n_twin):
         scen = make_twin_scenario(rng)
         _register(ctx, scen)
